@@ -234,6 +234,17 @@ def agg_variance(xs):
     return statistics.variance(xs)
 
 
+def as_dict(x):
+    return x
+
+
+FILE_LOGS = {}        # native reading: filename -> list of records written (filled by the replay harness)
+
+
+def file_log(name):
+    return FILE_LOGS.setdefault(name, [])
+
+
 def same_obj(x, y):
     """x and y are the same container object, where y may be a snapshot copy carrying its origin's identity."""
     return getattr(x, 'orig_id__', id(x)) == getattr(y, 'orig_id__', id(y))
@@ -281,6 +292,6 @@ class Old:
 
 NATIVE_HELPERS = dict(pos_in=pos_in, implies=implies, iff=iff, index_of=index_of, order_of=order_of, key_at=key_at,
                       is_fresh=is_fresh, same_elems=same_elems, same_dict=same_dict, typeof=typeof, same=same, same_obj=same_obj, now=now, was=was, origin=origin, by_lemma=by_lemma, as_list=as_list, is_ndarray=is_ndarray, is_list=is_list, is_str_value=is_str_value, iterable=iterable, items_of=items_of, rec_has=rec_has,
-                      rec_get=rec_get, agg_min=agg_min, agg_max=agg_max, agg_mean=agg_mean, agg_sum=agg_sum,
+                      rec_get=rec_get, as_dict=as_dict, file_log=file_log, agg_min=agg_min, agg_max=agg_max, agg_mean=agg_mean, agg_sum=agg_sum,
                       agg_variance=agg_variance,
                       is_none=is_none)
